@@ -356,7 +356,7 @@ func Run(c *fw.Ctx) {
 		"sheet names, chapter <title>, speaker notes and text of grouped shapes may be omitted by a rendering, but may only appear with their own part")
 	c.Exhaustive(false)
 
-	n := c.N(1500, 30000)
+	n := c.N(3000, 60000)
 	c.Parallel(n, func(i int) {
 		id := fmt.Sprintf("pkg:%d", i)
 		if !c.Want(id) {
